@@ -1994,6 +1994,20 @@ def _stream_cursors(a, b, out):
         if (a.root, a.path, a.mut) != (b.root, b.path, b.mut):
             return False
         return _stream_cursors(a.start, b.start, out) and _stream_cursors(a.end, b.end, out)
+    if isinstance(a, Ref) and isinstance(b, Ref):
+        if a.root != b.root or a.mut != b.mut or len(a.path) != len(b.path):
+            return False
+        for x, y in zip(a.path, b.path):
+            if x == y:
+                continue
+            if x[0] in ('i', 'e') and y[0] in ('i', 'e'):
+                tx = iconst(x[1]) if x[0] == 'i' else x[1]
+                ty_ = iconst(y[1]) if y[0] == 'i' else y[1]
+                if tx != ty_:
+                    out.append((tx, ty_))
+                continue
+            return False
+        return True
     if isinstance(a, tuple) and isinstance(b, tuple):
         if a != b:
             out.append((a, b))
@@ -2281,6 +2295,7 @@ def _close_lockstep_loop(it, frame, summ):
     st_head = summ.head_state
     # cursors: every carried leaf must be a stream / slice view whose differing terms advance by one
     cursors = []          # (head symbol, initial term)
+    derived = []          # (head symbol, initial term, value after an iteration as a term over the cursors)
     for r, p, fv, iv in summ.carried:
         cur = []
         if isinstance(fv, Stream) and isinstance(iv, Stream):
@@ -2289,20 +2304,36 @@ def _close_lockstep_loop(it, frame, summ):
         elif isinstance(fv, SliceRef) and isinstance(iv, SliceRef):
             if not _stream_cursors(iv, fv, cur) or not cur:
                 return 'carried slice changes storage'
+        elif isinstance(fv, Ref) and isinstance(iv, Ref):
+            if not _stream_cursors(iv, fv, cur) or not cur:
+                return 'carried reference changes storage'
+        elif isinstance(fv, tuple) and fv and fv[0] == 'sym' and isinstance(iv, tuple):
+            cur = [(iv, fv)]
         else:
-            return 'carried leaf is neither a stream nor a slice view'
+            return 'carried leaf is neither a stream, a slice view, an element reference nor a scalar'
         try:
             bv = it.read(bs, r, p)
         except Unsupported:
             return 'back value unreadable'
         adv = []
-        if not _stream_cursors(fv, bv, adv):
+        if isinstance(fv, tuple):
+            adv = [(fv, bv)] if isinstance(bv, tuple) else None
+        elif not _stream_cursors(fv, bv, adv):
+            adv = None
+        if adv is None:
             return 'back value changes shape'
         step = {b_: a_ for b_, a_ in adv}
         for orig, head in cur:
-            if step.get(head) != it.iadd(head, iconst(1)):
-                return 'cursor %s does not advance by one' % term_str(head)
-            cursors.append((head, orig))
+            nxt_ = step.get(head, head)
+            if nxt_ == it.iadd(head, iconst(1)) and not isinstance(fv, (Ref,)) and not (isinstance(fv, tuple)):
+                cursors.append((head, orig))
+            elif head not in set(subterms(nxt_)):
+                # not accumulated: after an iteration it is a function of where the cursors were in that iteration
+                derived.append((head, orig, nxt_))
+            elif nxt_ == it.iadd(head, iconst(1)):
+                cursors.append((head, orig))
+            else:
+                return 'carried value %s accumulates' % term_str(head)
     if not (1 <= len(cursors) <= 2):
         return '%d cursors' % len(cursors)
     csyms = [c for c, _ in cursors]
@@ -2374,6 +2405,24 @@ def _close_lockstep_loop(it, frame, summ):
                              (mk_icmp('eq', na, nb), {rlit[ca]: False, rlit[cb]: False}, {ca: bounds[ca], cb: bounds[cb]}),
                              (mk_icmp('gt', na, nb), {rlit[ca]: True, rlit[cb]: False}, {ca: it.iadd(c0a, nb), cb: bounds[cb]})):
             cases.append((((found, False, None), (rel, True, None)), {mk_not(found), rel}, mp, asg))
+    if derived:
+        # value of a derived leaf when the loop is left after J complete iterations: what the last complete iteration
+        # (cursors at c0 + J − 1) left there, or its initial value when there was none
+        dsyms = {d for d, _, _ in derived}
+        for d, d0, nx in derived:
+            if set(subterms(nx)) & dsyms:
+                return 'derived values depend on each other'
+        cases2 = []
+        for newg, newf, mp, asg in cases:
+            J = None
+            c_, c0_ = cursors[0]
+            J = it.isub(mp[c_], c0_)
+            mp2 = dict(mp)
+            for d, d0, nx in derived:
+                last = recanon(it, subst_term(nx, {cc: it.isub(it.iadd(cc0, J), iconst(1)) for cc, cc0 in cursors}))
+                mp2[d] = mk_sel(mk_icmp('ge', J, iconst(1)), last, d0)
+            cases2.append((newg, newf, mp2, asg))
+        cases = cases2
     out = {}
     for t, ss in summ.exit_states.items():
         for s_ in ss:
